@@ -7,7 +7,11 @@ Workloads (all on the real classes, nothing is executed):
               workflow-inputs);
  (b) `cwl`    workflows produced by the real CWLTranslator from generated CWL documents, bindings
               and deployments (vf.harness.c08_cwl);
- (c) `tokens` forests of nested List/Object/Job/File/termination tokens saved on ports.
+ (c) `tokens` forests of nested List/Object/Job/File/termination tokens saved on ports;
+ (d) `graph-incremental`  a graph is saved, then grown (new input/output ports on persisted steps, new steps
+              reading persisted ports, new ports) and saved again, 1-2 growth phases, then all oracles on the final graph;
+ (e) `tokens-concurrent`  composite tokens sharing unsaved inner tokens, saved by concurrent tasks (asyncio.gather
+              through the jittering database), then loaded and compared like (c).
 
 Oracles (vf.models.c08_canon: reflective canonical form, rules R1-R9 in its docstring):
  O1 saving does not change the original's canonical form;
@@ -63,11 +67,12 @@ def plan(tier):
         "min_nontrivial": 30 if q else 500,
         "required_counters": ["roundtrip_compared", "copy_compared", "two_loads_compared", "sharing_probed",
                               "mutation_probed", "sql_rows_compared", "tokens_compared", "cwl_workflows",
-                              "graph_workflows", "token_forests"],
+                              "graph_workflows", "token_forests", "incremental_save_phases",
+                              "new_input_port_on_saved_step", "new_step", "concurrent_save_batches", "shared_inner_tokens"],
         "rule": "cases are (kind, seed): graph (1-7 random steps of 23 kinds, random ports/processors/commands/targets), "
                 "graph variants all-kinds (every step/combinator/processor/command kind, first case of every shard) / dup-port / "
-                "empty-scatter-skip / workflow-inputs, cwl (1-5 random CWL steps over 14 features "
-                "+ random bindings), tokens (forest of 8-30 trees, depth<=4). Non-trivial = the workflow has at least one "
+                "empty-scatter-skip / workflow-inputs, graph-incremental (save, grow wiring/steps, save again, 1-2 phases), cwl (1-5 random CWL steps over 14 features "
+                "+ random bindings), tokens (forest of 8-30 trees, depth<=4), tokens-concurrent (4-12 composites sharing 2-5 unsaved inner tokens, saved with gather). Non-trivial = the workflow has at least one "
                 "step (graph/cwl) or one nested token (tokens); distinct = distinct (kind, seed).",
         "exhaustive": False,
         "assumptions": ["graphs are saved before execution (run-time maps empty)",
@@ -206,12 +211,18 @@ class Judge:
         return False
 
     # ------------------------------------------------------------------ workflows
-    async def workflow(self, X: Ctx, wf, info):
+    async def workflow(self, X: Ctx, wf, info, phases=()):
         from streamflow.core.workflow import Port, Step, Workflow
         from streamflow.persistence.loading_context import DefaultDatabaseLoadingContext, WorkflowBuilder
         from vf.models.c08_canon import SENTINEL, diff, has_sentinel, short, show, strip_sentinel
 
         sh, C = self.sh, self.C
+        # incremental class: the graph is saved, extended (new wiring on persisted steps, new steps on persisted
+        # ports), saved again ...; every oracle below then applies to the final in-memory graph
+        for grow in phases:
+            await wf.save(X.db)
+            grow()
+            sh.count("incremental_save_phases")
         c0 = C.canon(wf)
         await wf.save(X.db)
         c1 = C.canon(wf)
@@ -315,7 +326,7 @@ class Judge:
             self.report(None, f"{label}: {len(bad)} broken back reference(s): {bad[:3]}", {"oracle": "O2-backrefs", "bad": bad[:10]})
 
     # ------------------------------------------------------------------ tokens
-    async def tokens(self, X: Ctx, rng):
+    async def tokens(self, X: Ctx, rng, concurrent=False):
         from streamflow.core.workflow import Token, Workflow
         from streamflow.persistence.loading_context import DefaultDatabaseLoadingContext
         from streamflow.workflow.token import ListToken, ObjectToken
@@ -326,15 +337,32 @@ class Judge:
         wf = Workflow(context=X.ctx, config={}, name="tok-" + str(rng.randrange(1 << 30)))
         ports = [wf.create_port() for _ in range(rng.randint(1, 3))]
         await wf.save(X.db)
-        forest = [G.build_token(rng) for _ in range(rng.randint(8, 30))]
         on_port = collections.defaultdict(list)
         canon0 = []
-        for t in forest:
-            canon0.append(C.canon(t))
-            p = rng.choice(ports + [None])
-            await t.save(X.db, port_id=p.persistent_id if p is not None else None)
-            if p is not None:
-                on_port[p.persistent_id].append(t.persistent_id)
+        if concurrent:
+            # composites sharing unsaved inner tokens, saved by concurrent tasks through the jittering database
+            # (the first insert of a shared inner token is in flight when the second parent reaches it)
+            forest, inners = G.build_shared_forest(rng)
+            canon0 = [C.canon(t) for t in forest]
+            where = [rng.choice(ports + [None]) for _ in forest]
+            await asyncio.gather(*(asyncio.create_task(t.save(X.db, port_id=p.persistent_id if p is not None else None))
+                                   for t, p in zip(forest, where)))
+            sh.count("concurrent_save_batches")
+            sh.count("shared_inner_tokens", len(inners))
+            for t, p in zip(forest, where):
+                if p is not None:
+                    on_port[p.persistent_id].append(t.persistent_id)
+            unsaved = [type(t).__name__ for t in C.objects(forest, Token) if t.persistent_id is None]
+            if unsaved:
+                self.report(None, f"after concurrent save() of the forest {len(unsaved)} reachable token(s) have no persistent_id: {unsaved[:5]}", {"oracle": "O1-concurrent"})
+        else:
+            forest = [G.build_token(rng) for _ in range(rng.randint(8, 30))]
+            for t in forest:
+                canon0.append(C.canon(t))
+                p = rng.choice(ports + [None])
+                await t.save(X.db, port_id=p.persistent_id if p is not None else None)
+                if p is not None:
+                    on_port[p.persistent_id].append(t.persistent_id)
         for t, c in zip(forest, canon0):
             if C.canon(t) != c:
                 self.report(None, "save() changed the original token", {"oracle": "O1"})
@@ -342,8 +370,16 @@ class Judge:
         lc1, lc2 = DefaultDatabaseLoadingContext(X.db), DefaultDatabaseLoadingContext(X.db)
         loaded1, loaded2 = [], []
         for t, c in zip(forest, canon0):
-            t1 = await lc1.load_token(t.persistent_id)
-            t2 = await (lc2 if rng.random() < 0.5 else DefaultDatabaseLoadingContext(X.db)).load_token(t.persistent_id)
+            try:
+                t1 = await lc1.load_token(t.persistent_id)
+                t2 = await (lc2 if rng.random() < 0.5 else DefaultDatabaseLoadingContext(X.db)).load_token(t.persistent_id)
+            except Exception as e:
+                row = await X.db.get_token(t.persistent_id)
+                self.report(None, f"loading a saved {type(t).__name__} raised {type(e).__name__}: {str(e)[:150]} (stored value {short(row['value'], 120)})",
+                            {"oracle": "O2-token-load", "token_class": type(t).__name__, "concurrent_save": concurrent, "tb": short_tb(e)})
+                loaded1.append(t)
+                loaded2.append(t)
+                continue
             loaded1.append(t1)
             loaded2.append(t2)
             sh.count("tokens_compared")
@@ -428,9 +464,18 @@ async def run_async(sh: Shard, case: dict, workdir: str):
             nontrivial = len(wf.steps) > 0
             cls = collections.Counter(type(s).__name__ for s in wf.steps.values())
             info = {"features": feats, "steps": len(wf.steps), "ports": len(wf.ports), "classes": dict(cls), "bindings": bool(sf)}
-        elif case["kind"] == "tokens":
+        elif case["kind"] == "graph-incremental":
+            wf, phases, ginfo = c08_gen.build_incremental(rng, X.ctx)
+            sh.count("incremental_workflows")
+            await J.workflow(X, wf, ginfo, phases=phases)
+            nontrivial = True
+            for k, v in ginfo["growth"].items():
+                sh.count(k, v)
+            info = {"steps": len(wf.steps), "ports": len(wf.ports), "growth": dict(ginfo["growth"]), "classes": dict(ginfo["used"])}
+        elif case["kind"] in ("tokens", "tokens-concurrent"):
             sh.count("token_forests")
-            nontrivial, n = await J.tokens(X, rng)
+            nontrivial, n = await J.tokens(X, rng, concurrent=case["kind"] == "tokens-concurrent")
+            nontrivial = nontrivial or case["kind"] == "tokens-concurrent"
             info = {"tokens": n}
         J.C.notes and info.setdefault("canon_notes", dict(J.C.notes))
         return nontrivial, info
@@ -495,16 +540,23 @@ def run_shard(sh: Shard) -> None:
     for variant in ("dup-port", "empty-scatter-skip", "workflow-inputs"):
         one({"kind": "graph", "variant": variant, "seed": rng.randrange(1 << 48)})
     one({"kind": "tokens", "seed": rng.randrange(1 << 48)}, sample=sh.shard == 2)
+    for _ in range(2):
+        one({"kind": "graph-incremental", "seed": rng.randrange(1 << 48)}, sample=sh.shard == 3 and len(sh.samples) < 1)
+        one({"kind": "tokens-concurrent", "seed": rng.randrange(1 << 48)})
     one({"kind": "cwl", "seed": rng.randrange(1 << 48)}, sample=sh.shard == 1)
     limit = sh.pick(400, 12000)
     while n < limit and not sh.out_of_budget():
         r = rng.random()
-        if r < 0.5:
+        if r < 0.35:
             case = {"kind": "graph", "variant": "generic", "seed": rng.randrange(1 << 48)}
-        elif r < 0.8:
+        elif r < 0.5:
+            case = {"kind": "graph-incremental", "seed": rng.randrange(1 << 48)}
+        elif r < 0.75:
             case = {"kind": "cwl", "seed": rng.randrange(1 << 48)}
-        else:
+        elif r < 0.88:
             case = {"kind": "tokens", "seed": rng.randrange(1 << 48)}
+        else:
+            case = {"kind": "tokens-concurrent", "seed": rng.randrange(1 << 48)}
         one(case, sample=sh.shard == 0 and len(sh.samples) < 1 and case["kind"] == "graph")
     sh.note("classes_instantiated", dict(classes))
     sh.note("cwl_features", dict(feats))
